@@ -2,7 +2,7 @@
 from .. import core
 from . import c15
 
-ACTS = {'Construct': 3, 'ConstructFaces': 1, 'FaceProbe': 2, 'ExtendProbe': 1, 'ConstructDisp': 1, 'GetPos': 4, 'GetDisp': 4, 'CumDisp': 3, 'Dist': 3, 'Slice': 1,
+ACTS = {'Construct': 3, 'ConstructFaces': 1, 'FaceProbe': 2, 'ExtendProbe': 1, 'ConstructDisp': 1, 'GetPos': 4, 'GetDisp': 4, 'Frame': 1, 'CumDisp': 3, 'Dist': 3, 'Slice': 1,
         'Filter': 1, 'ReadOnly': 1, 'ApplyDrift': 1, 'Drift': 1, 'Split': 1, 'Extend': 1}
 JUDGED = {'GetPos', 'GetDisp', 'CumDisp', 'Dist'}
 
